@@ -16,6 +16,8 @@ def spec(th, seed):
     u.append(san('C20_edge', 'mon/C20_edge.cpp', 0.5 if not th else 1.0))
     # the same edge monitor with SIMD default-aligned types (aligned vec3 is wider than three elements: pointer builders, conversions)
     u.append(san('C20_edge.simd-aligned', 'mon/C20_edge.cpp', 0.25, defs=['-DGLM_FORCE_INTRINSICS', '-DGLM_FORCE_DEFAULT_ALIGNED_GENTYPES', '-msse2']))
+    # ... and with packed default types in an AVX2 build (256-bit double registers: aligned<->packed conversions store/load whole registers)
+    u.append(san('C20_edge.simd-avx2', 'mon/C20_edge.cpp', 0.25, defs=['-DGLM_FORCE_INTRINSICS', '-mavx2', '-mfma']))
     u.append(san('C05_integer', 'mon/C05_integer.cpp', 0.02, args=D(8)))
     u.append(san('C18_bitfield', 'mon/C18_bitfield.cpp', 0.02, args=D(256)))
     u.append(san('C18_pow2mult.p3', 'mon/C18_pow2mult.cpp', 0.02, defs=['-DC18_PART=3'], args=D(64)))
